@@ -7,7 +7,9 @@ package replica
 
 import (
 	"os"
+	"path/filepath"
 	"sort"
+	realtime "time"
 
 	"github.com/openebs/jiva/types"
 	"github.com/openebs/jiva/util"
@@ -136,9 +138,108 @@ func VerifFlushHoles() {
 // VerifPendingHoles is the current length of the hole queue.
 func VerifPendingHoles() int { return len(HoleCreatorChan) }
 
+// ---- held-hole schedules (engine E-A): a slow hole-punching goroutine ----
+
+// verifHoldDisk is a queue entry whose Fd() method blocks the CreateHoles goroutine until the explorer releases it
+// or until somebody asks for the queue to be drained (holeDrainer sets DrainStart and then waits for CreateHoles,
+// so a drain request has to let the goroutine run on, exactly as it would wait for a slow goroutine in production).
+type verifHoldDisk struct {
+	verifFlushDisk
+	entered  chan struct{}
+	release  chan struct{}
+	returned chan struct{}
+}
+
+func (v *verifHoldDisk) Fd() uintptr {
+	close(v.entered)
+	defer close(v.returned)
+	for {
+		select {
+		case <-v.release:
+			return v.f.Fd()
+		default:
+		}
+		if types.DrainOps == types.DrainStart {
+			return v.f.Fd()
+		}
+		sleepShort()
+	}
+}
+
+// VerifHold is the handle of one hold.
+type VerifHold struct{ d *verifHoldDisk }
+
+// VerifHoldHoles makes the CreateHoles goroutine stall (as if it were slow) with every hole queued from now on left
+// in the queue, in order.  The queue must be empty (flushed) when it is called.
+func VerifHoldHoles() *VerifHold {
+	VerifFlushHoles()
+	d := &verifHoldDisk{entered: make(chan struct{}), release: make(chan struct{}), returned: make(chan struct{})}
+	d.f = verifFlushFile
+	d.done = make(chan struct{})
+	HoleCreatorChan <- Hole{f: d, offset: 0, len: 4096}
+	<-d.entered
+	return &VerifHold{d}
+}
+
+// Over reports whether the stall has ended (released, or overtaken by a drain request).
+func (h *VerifHold) Over() bool {
+	select {
+	case <-h.d.returned:
+		return true
+	default:
+		return false
+	}
+}
+
+// Release lets the goroutine run on and waits until every hole queued so far has been handled.
+func (h *VerifHold) Release() {
+	select {
+	case <-h.d.release:
+	default:
+		close(h.d.release)
+	}
+	<-h.d.returned
+	VerifFlushHoles()
+}
+
+// VerifDiscardHoles does what holeDrainer does (used by the harness when no replica is open any more).
+func VerifDiscardHoles() { holeDrainer() }
+
+// VerifHoleDesc describes one queued hole.
+type VerifHoleDesc struct {
+	File   string // base name of the target file
+	Closed bool   // the queued file object has been closed in the meantime
+	Off    int64
+	Len    int64
+}
+
+// VerifQueuedHoles lists the queue in order.  Only valid while the consumer is stalled by VerifHoldHoles and no
+// producer runs (it takes every entry out and puts it back).
+func VerifQueuedHoles() []VerifHoleDesc {
+	n := len(HoleCreatorChan)
+	var out []VerifHoleDesc
+	for i := 0; i < n; i++ {
+		h := <-HoleCreatorChan
+		d := VerifHoleDesc{Off: h.offset, Len: h.len}
+		if of, ok := h.f.(*os.File); ok {
+			d.File = filepath.Base(of.Name())
+			d.Closed = of.Fd() == ^uintptr(0)
+		} else if h.f == nil {
+			d.File = "<empty>"
+		} else {
+			d.File = "<other>"
+		}
+		out = append(out, d)
+		HoleCreatorChan <- h
+	}
+	return out
+}
+
 func verifOSync() int {
 	if util.VerifNoSync {
 		return 0
 	}
 	return os.O_SYNC
 }
+
+func sleepShort() { realtime.Sleep(20 * realtime.Microsecond) }
